@@ -23,13 +23,16 @@ import (
 
 type OutsideValidityIntervalUtxoError struct {
 	ValidityIntervalStart uint64
-	Slot                  uint64
+	// InvalidHereafter is the exclusive upper bound (TTL field), 0 if not set
+	InvalidHereafter uint64
+	Slot             uint64
 }
 
 func (e OutsideValidityIntervalUtxoError) Error() string {
 	return fmt.Sprintf(
-		"outside validity interval: start %d, slot %d",
+		"outside validity interval: start %d, invalid hereafter %d, slot %d",
 		e.ValidityIntervalStart,
+		e.InvalidHereafter,
 		e.Slot,
 	)
 }
